@@ -2,6 +2,7 @@ mod common;
 #[cfg(not(feature = "inprocess"))]
 mod frag;
 mod values;
+mod chan;
 
 use serde_json::json;
 
@@ -24,6 +25,8 @@ fn main() {
         #[cfg(not(feature = "inprocess"))]
         "frag" => frag::run(),
         "values" => values::run(),
+        "chan" => chan::run(args.get(2).map(|s| s.as_str()).unwrap_or("thread")),
+        "agent" => chan::agent_main(&args[2]),
         _ => {
             eprintln!("usage: vharness <role> ...");
             std::process::exit(2);
